@@ -194,8 +194,8 @@ def check (enc : String) (text : Bytes) : String :=
       | some cs =>
         (if reads text cs then "" else " SPEC-MISMATCH:text") ++
         (if reads (render s L0) cs then "" else " SPEC-MISMATCH:render") ++
-        -- the same sentence with comments directly behind the values (known finding C11-K2: not
-        -- behind a numeric literal)
-        (if hasNumPercent s L1 || reads (render s L1) cs then "" else " SPEC-MISMATCH:render-tight")
+        -- the same sentence with comments directly behind the values, numeric literals included
+        -- (`42%c`: fix C11-08)
+        (if reads (render s L1) cs then "" else " SPEC-MISMATCH:render-tight")
 
 end Driver.ScanSentence
